@@ -47,16 +47,22 @@ def run_coq(path, timeout=600):
     return vals
 
 
-def check_cases(cases, workdir=None, shard=150, cfg=(0, 0)):
-    """-> list of (case_index, first_failing_step) for disagreeing cases."""
+def check_cases(cases, workdir=None, shard=40, cfg=(0, 0)):
+    """-> list of (case_index, first_failing_step) for disagreeing cases.  Shards are evaluated by parallel coqc runs."""
+    from concurrent.futures import ThreadPoolExecutor
     workdir = workdir or tempfile.mkdtemp(prefix='pvcases')
     os.makedirs(workdir, exist_ok=True)
     bad = []
+    paths = {}
+    for k in range(0, len(cases), shard):
+        paths[k] = os.path.join(workdir, 'cases_%d.v' % k)
+        write_cases(paths[k], cases[k:k + shard], cfg)
+    with ThreadPoolExecutor(max_workers=int(os.environ.get('VERIF_JOBS', '8'))) as ex:
+        results = dict(zip(paths, ex.map(lambda kk: run_coq(paths[kk]), list(paths))))
     for k in range(0, len(cases), shard):
         part = cases[k:k + shard]
-        path = os.path.join(workdir, 'cases_%d.v' % k)
-        write_cases(path, part, cfg)
-        res = run_coq(path)
+        path = paths[k]
+        res = results[k]
         assert len(res) == len(part), (len(res), len(part))
         for i, r in enumerate(res):
             if r != -1:
